@@ -548,7 +548,7 @@ Print Assumptions C01_ring_reading_agrees_with_eval_typed.
 (* the PRF nodes of the main graph as atoms [matom], and the Call node read as the evaluation  *)
 (* of the computation graph on the argument values.                                            *)
 (* ====================================================================================== *)
-From CC Require Import Model.MpcCompileCtx Model.MpcCompileCtxSem Proofs.MpcCompileCtxBase Proofs.MpcCompileCtxProofs.
+From CC Require Import Model.MpcCompileCtx Model.MpcCompileCtxSem Proofs.MpcCompileCtxBase Proofs.MpcCompileCtxStatic Proofs.MpcCompileCtxProofs.
 
 (* Input sharing: share_node on an array/scalar node holding x (owner Party i or Public), with any
    three PRF keys, ends in a tuple of three shares adding up to x, for all PRF values. *)
@@ -597,6 +597,17 @@ Proof.
   exists env'. auto.
 Qed.
 
+(* is_output_private of compile_to_mpc_context (the Private annotation of the computation graph's
+   output node) is the privacy analysis of the source output, for EVERY program of the mirrored
+   fragment: the emitting helpers only append nodes without that annotation, and compile_node adds
+   it exactly on the compiled node of a private source node. *)
+Theorem C01_deep_output_annotation :
+  forall nodes output flags cg coo priv use_mul,
+  compile_graph nodes output flags = Ok (cg, coo) ->
+  propagate_private_annotations nodes flags = Ok (priv, use_mul) ->
+  output_annotated_private cg coo = mem output priv.
+Proof. exact MpcCompileCtxStatic.output_annotation_is_privacy. Qed.
+
 (* The context-level theorem.  For every program of the theorem fragment [thm_frag] whose output
    node holds an array/scalar value v, every input status vector (an input is owned by Party i,
    Public, or arrives Shared: then the main graph receives ANY triple of values and its meaning is
@@ -611,10 +622,10 @@ Qed.
         message the revealing party p0 sends after the call -- holds v, and, when the result is private,
         every other listed party q receives such a message.  (For a public result the Call node itself
         is the output: every party evaluates it.)
-   Partial: [thm_frag] programs (as C01_deep_compile_correct_partial), and the hypothesis that the
-   Private annotation of the computation graph's output node agrees with the privacy analysis
-   ([output_annotated_private cg coo = mem output priv]; a boolean, true by vm_compute on every
-   instance, see the example; the direction private -> annotated is C01_deep_structure). *)
+   [output_annotated_private cg coo] is is_output_private of compile_to_mpc_context: the output node of
+   the computation graph carries the Private annotation; C01_deep_output_annotation proves that this
+   is the privacy analysis of the source output.
+   Partial: [thm_frag] programs only (as C01_deep_compile_correct_partial). *)
 Theorem C01_deep_context_correct_partial :
   forall (R : Type) (r0 r1 : R) (radd rmul rsub : R -> R -> R) (ropp : R -> R),
   ring_theory r0 r1 radd rmul rsub ropp eq ->
@@ -623,10 +634,8 @@ Theorem C01_deep_context_correct_partial :
   (forall o a a' b, bil o (radd a a') b = radd (bil o a b) (bil o a' b)) ->
   (forall o a b b', bil o a (radd b b') = radd (bil o a b) (bil o a b')) ->
   (forall o l l', length l = length l' -> nlin o (vadd R radd l l') = radd (nlin o l) (nlin o l')) ->
-  forall nodes output sts outs cg coo mg moo priv use_mul,
+  forall nodes output sts outs cg coo mg moo,
   compile_to_mpc nodes output sts (map IOParty outs) = Ok ((cg, coo), (mg, moo)) ->
-  propagate_private_annotations nodes (map (fun s => negb (iostatus_eqb s IOPublic)) sts) = Ok (priv, use_mul) ->
-  output_annotated_private cg coo = mem output priv ->
   thm_frag nodes = true ->
   Forall (fun p => 0 <= p) outs ->
   forall ins_s ins_m env_s v,
@@ -709,12 +718,10 @@ Proof.
   { vm_compute in Hc. inversion Hc; subst. vm_compute. reflexivity. }
   destruct (C01_deep_context_correct_partial Z 0 1 Z.add Z.mul Z.sub Z.opp InitialRing.Zth ex_atom cx_matom (fun _ => 0) 1 ex_lin (fun _ _ _ => 0) (fun _ _ => 0)
               (fun _ _ _ => eq_refl) (fun _ _ _ _ => eq_refl) (fun _ _ _ _ => eq_refl) (fun _ _ _ _ => eq_refl)
-              cx_src 3 cx_sts cx_outs cg coo mg moo [3; 2; 1; 0] true Hc)
+              cx_src 3 cx_sts cx_outs cg coo mg moo Hc)
     with (ins_s := [RLeaf Z 3; RLeaf Z 5]) (ins_m := [RLeaf Z 3; RLeaf Z 5])
          (env_s := [RLeaf Z 3; RLeaf Z 5; RLeaf Z 15; RLeaf Z 18]) (v := 18)
     as (env_m & Hev & Hout & c & cn & _ & _ & _ & Hsend & Hrecv).
-  - vm_compute. reflexivity.
-  - rewrite Hann. reflexivity.
   - reflexivity.
   - repeat constructor; lia.
   - vm_compute. reflexivity.
@@ -727,4 +734,5 @@ Qed.
 
 Print Assumptions C01_deep_share_node_sums.
 Print Assumptions C01_deep_reveal_adds_shares.
+Print Assumptions C01_deep_output_annotation.
 Print Assumptions C01_deep_context_correct_partial.
